@@ -24,12 +24,13 @@ W_INV = [
                  "for p in range(0, len(script_text)))"),
 ]
 
-contract(MD + "generate_script_block",
+uninterpreted("script_block_of", [TList(JobScriptSpecification)], TList(Str))  # ghost: generate_script_block as a function of its argument
+contract(MD + "generate_script_block", pure_fn="script_block_of",
          props=["C15"],
          params=dict(blocks=TList(JobScriptSpecification)),
          result=Lines,
          local_sorts=dict(dependencies=TDict(Name, TList(Name)), block_lookup=TDict(Name, JobScriptSpecification),
-                          seen_blocks=NameSet, script_text=Lines),
+                          seen_blocks=NameSet, script_text=Lines, why=Int, first=NameInt, pos=NameInt, start=NameInt, owner=IntName),
          ghost_init=["first = any_value(NameInt)", "off = any_value(IntInt)", "pos = any_value(NameInt)", "start = any_value(NameInt)",
                      "at = any_value(IntName)", "owner = any_value(IntName)", "owner0 = owner", "cnt = 0", "card0 = 0", "why = 0",
                      "L0 = 0", "T0 = any_value(Lines)", "seen0 = any_value(NameSet)"],
@@ -126,3 +127,11 @@ contract(MD + "generate_script_block",
                  needs={"S4.owner": ["S1.length", "S4.owner"], "S3.appended": ["S1.length", "S3.appended"],
                         "S2.prefix": ["S1.length", "S2.prefix"], "S1.length": ["S1.length"]}),
          })
+
+
+# ---- insertion into the job options (atlas/xaod/executor.py:48-54) -------------------------------------------------
+REPL = TKDict("Replacement", dict(job_option_additions=TList(Str)))
+AEX = "func_adl_xAOD.atlas.xaod.executor.atlas_xaod_executor"
+contract(AEX + ".add_to_replacement_dict", props=["C15"], params=dict(self=RefOf(AEX)), result=REPL, may_raise=["ValueError"], strict=False,
+         ensures=[("additions_are_the_script_block", "'job_option_additions' in result and "
+                                                     "result['job_option_additions'] == script_block_of(field(self, '_job_option_blocks'))")])
